@@ -455,8 +455,63 @@ func strSlice(ss []*StrV) Value {
 	return SliceV{Data: d}
 }
 
+// spaceAt decides whether a Unicode white-space rune (as strings.Fields / unicode.IsSpace see it) starts
+// at byte i of bs, and returns its length in bytes (0 = no). Decisions on symbolic bytes fork; bytes >= 0x80
+// are handled by their UTF-8 structure (U+0085, U+00A0, U+1680, U+2000-200A, U+2028, U+2029, U+202F, U+205F,
+// U+3000), without enumerating byte values.
+func (ip *Interp) spaceAt(bs []*Term, i int) int {
+	T := ip.p.T
+	b0 := bs[i]
+	eq := func(b *Term, v uint64) bool { return ip.p.Branch(T.Cmp(OpEq, b, T.Const(8, v))) }
+	in := func(b *Term, lo, hi uint64) bool {
+		return ip.p.Branch(T.And(T.Cmp(OpUle, T.Const(8, lo), b), T.Cmp(OpUle, b, T.Const(8, hi))))
+	}
+	if ip.p.Branch(T.Cmp(OpUlt, b0, T.Const(8, 0x80))) {
+		if ip.p.Branch(ip.isSpaceTerm(b0)) {
+			return 1
+		}
+		return 0
+	}
+	if !in(b0, 0xC2, 0xE3) {
+		return 0
+	}
+	if eq(b0, 0xC2) {
+		if i+1 < len(bs) && (eq(bs[i+1], 0x85) || eq(bs[i+1], 0xA0)) {
+			return 2
+		}
+		return 0
+	}
+	if i+2 >= len(bs) {
+		return 0
+	}
+	if eq(b0, 0xE1) {
+		if eq(bs[i+1], 0x9A) && eq(bs[i+2], 0x80) {
+			return 3
+		}
+		return 0
+	}
+	if eq(b0, 0xE2) {
+		if eq(bs[i+1], 0x80) {
+			if in(bs[i+2], 0x80, 0x8A) || eq(bs[i+2], 0xA8) || eq(bs[i+2], 0xA9) || eq(bs[i+2], 0xAF) {
+				return 3
+			}
+			return 0
+		}
+		if eq(bs[i+1], 0x81) && eq(bs[i+2], 0x9F) {
+			return 3
+		}
+		return 0
+	}
+	if eq(b0, 0xE3) {
+		if eq(bs[i+1], 0x80) && eq(bs[i+2], 0x80) {
+			return 3
+		}
+	}
+	return 0
+}
+
 func inFields(ip *Interp, fn *ssa.Function, a []Value) Value {
-	s := ip.asciiOrConc(a[0].(*StrV))
+	s := a[0].(*StrV)
 	if s.IsConc() {
 		fs := strings.Fields(s.S)
 		out := make([]*StrV, len(fs))
@@ -465,20 +520,27 @@ func inFields(ip *Interp, fn *ssa.Function, a []Value) Value {
 		}
 		return strSlice(out)
 	}
+	bs := s.Sym
 	var out []*StrV
 	start := -1
-	for i, b := range s.Sym {
-		if ip.p.Branch(ip.isSpaceTerm(b)) {
+	i := 0
+	for i < len(bs) {
+		n := ip.spaceAt(bs, i)
+		if n > 0 {
 			if start >= 0 {
-				out = append(out, strFromTerms(s.Sym[start:i]))
+				out = append(out, strFromTerms(bs[start:i]))
 				start = -1
 			}
-		} else if start < 0 {
+			i += n
+			continue
+		}
+		if start < 0 {
 			start = i
 		}
+		i++
 	}
 	if start >= 0 {
-		out = append(out, strFromTerms(s.Sym[start:]))
+		out = append(out, strFromTerms(bs[start:]))
 	}
 	return strSlice(out)
 }
